@@ -47,6 +47,20 @@ func datasetFields(ds *gen.Dataset) *fieldPool {
 	return fp
 }
 
+// execSeedQueries: query shapes that crashed the server process on the pinned tree (found by
+// this check or reported by the builders of other checks); they stay in the mix so that the
+// classes keep being exercised with generated datasets.
+var execSeedQueries = []string{
+	"* | sort 0 %s", "* | sort limit=0 +num(%s)", "* | top 0 %s by %s useother=true", "* | rare 0 %s useother=true", "* | transaction %s",
+	"| gentimes start=-3 increment=1h | stats latest(%s) by %s", "| gentimes start=-1 increment=6h | sort limit=1000 -auto(%s)",
+	`* | stats estdc(eval(relative_time(1700000000, "@w"))) as total by %s`, `* | makemv delim="," %s | mvexpand %s | sort -nosuchcol`,
+	`* | fillnull value="q" %s | makemv delim="," %s | mvexpand %s | dedup nosuchcol %s keepempty=true consecutive=true`,
+	`* | rex field=%s "(?<first>\\w+)" | sort %s`, "* | streamstats window=0 count by %s", "* | timechart span=0s count by %s", "* | bin span=0 %s",
+	"* | head 0", "* | tail 0", "* | dedup 0 %s", "* | mvexpand %s limit=0", "* | eval x=mvrange(0, 100000000) | head 1", "* | eval x=pow(10, 400) | stats sum(x)",
+	"* | stats p0(%s), p100(%s), perc66.6(%s)", "* | stats values(%s) as v | mvexpand v | stats count by v", "* | eventcount index=* summarize=false",
+	"* | append [ search * ] | stats count", "* | format maxresults=0", "* | tojson | spath", "* | fields - *", "* | rename * AS x*",
+}
+
 func genExecCase(t *rapid.T) *execCase {
 	ds := gen.GenDataset(t, gen.DatasetOpts{MinEvents: 1, MaxEvents: pt.Scale(40, 120), MaxCols: 6, NullPct: 5})
 	c := &execCase{DS: ds, Rotate: rapid.IntRange(0, 3).Draw(t, "rotate") == 0}
@@ -56,7 +70,14 @@ func genExecCase(t *rapid.T) *execCase {
 	fp := datasetFields(ds)
 	n := rapid.IntRange(3, 8).Draw(t, "nQueries")
 	for i := 0; i < n; i++ {
-		switch k := rapid.IntRange(0, 19).Draw(t, "qLang"); {
+		switch k := rapid.IntRange(0, 21).Draw(t, "qLang"); {
+		case k >= 20:
+			tpl := rapid.SampledFrom(execSeedQueries).Draw(t, "seedQuery")
+			q := tpl
+			for strings.Contains(q, "%s") {
+				q = strings.Replace(q, "%s", rapid.SampledFrom(fp.Fields).Draw(t, "seedField"), 1)
+			}
+			c.Queries = append(c.Queries, execQuery{"spl", q})
 		case k < 15:
 			c.Queries = append(c.Queries, execQuery{"spl", genSPL(t, fp, false, true)})
 		case k < 17:
